@@ -756,6 +756,11 @@ impl<'a> ClientAssociationOptions<'a> {
             !presentation_contexts.is_empty(),
             crate::association::MissingAbstractSyntaxSnafu
         );
+        // presentation context identifiers are odd numbers between 1 and 255
+        ensure!(
+            presentation_contexts.len() <= 128,
+            crate::association::TooManyPresentationContextsSnafu
+        );
 
         // choose called AE title
         let called_ae_title: &str = match (&called_ae_title, ae_title) {
